@@ -18,7 +18,10 @@ FloatTexts == {[neg |-> n, int |-> i, frac |-> f, eneg |-> en, exp |-> e] :
 \* an optional numeric column: short integer texts and the '.' placeholder (also an empty cell) that stands for a missing value
 OptTexts == {s \in IntTexts : Len(s) <= 2} \cup {<<DOT>>, <<>>}
 \* float texts with more digits than a double holds (written by %.20f and the like): the value is still the decimal number
-LongFloatTexts == {[neg |-> FALSE, int |-> <<3>>, frac |-> <<1, 4, 1, 5, 9, 2, 6, 5, 3, 5, 8, 9, 7, 9, 3, 2, 3, 8, 4, 6>>, eneg |-> FALSE, exp |-> <<>>],
+\* 17 significant digits, a sign and a two- or three-digit exponent of either sign: the longest shortest-round-trip texts of a double
+D17 == <<2, 3, 4, 5, 6, 7, 8, 9, 0, 1, 2, 3, 4, 5, 6, 7>>
+WideFloatTexts == {[neg |-> n, int |-> <<1>>, frac |-> D17, eneg |-> en, exp |-> e] : n \in BOOLEAN, en \in BOOLEAN, e \in {<<3, 0>>, <<3, 0, 0>>}}
+LongFloatTexts == WideFloatTexts \cup {[neg |-> FALSE, int |-> <<3>>, frac |-> <<1, 4, 1, 5, 9, 2, 6, 5, 3, 5, 8, 9, 7, 9, 3, 2, 3, 8, 4, 6>>, eneg |-> FALSE, exp |-> <<>>],
                    [neg |-> FALSE, int |-> <<0>>, frac |-> <<1, 2, 3, 4, 5, 6, 7, 8, 9, 0, 1, 2, 3, 4, 5, 6, 7, 8, 9, 0>>, eneg |-> FALSE, exp |-> <<>>],
                    [neg |-> TRUE,  int |-> <<1, 2, 3, 4, 5, 6, 7, 8, 9, 0, 1, 2, 3, 4, 5, 6, 7, 8, 9>>, frac |-> <<5>>, eneg |-> FALSE, exp |-> <<>>],
                    [neg |-> FALSE, int |-> <<0>>, frac |-> <<0, 0, 0, 0, 0, 0, 0, 0, 0, 0, 0, 0, 0, 0, 0, 0, 0, 0, 0, 1, 2, 3, 4>>, eneg |-> FALSE, exp |-> <<>>]}
